@@ -25,7 +25,7 @@ def build_gen():
     return True
 
 
-def gen_corpus(seed, tier, out, dropped=(), release_like=False, specs_file=None):
+def gen_corpus(seed, tier, out, dropped=(), release_like=False, specs_file=None, only_forms=False):
     if specs_file:
         cmd = [GEN, "specs", "--file", specs_file, "--out", out]
     else:
@@ -34,6 +34,8 @@ def gen_corpus(seed, tier, out, dropped=(), release_like=False, specs_file=None)
         cmd += ["--drop", ",".join(sorted(dropped))]
     if release_like:
         cmd += ["--release-like"]
+    if only_forms:
+        cmd += ["--only-forms"]
     code, outp = run(cmd, capture=True)
     if code != 0:
         sys.stderr.write(outp[-4000:])
@@ -47,7 +49,7 @@ def target_for(out):
     return os.path.join(TARGET, "gen_" + os.path.basename(out))
 
 
-def build_corpus(seed, tier, out, release_like=False, specs_file=None):
+def build_corpus(seed, tier, out, release_like=False, specs_file=None, only_forms=False):
     """Returns (ok, dropped, compile_failures).  A grammar whose generated code does not
     compile is attributed by the file name in rustc's diagnostics, dropped and reported."""
     dropped = set()
@@ -56,7 +58,7 @@ def build_corpus(seed, tier, out, release_like=False, specs_file=None):
     env["CARGO_TARGET_DIR"] = target_for(out)
     env["VERIF_WORK"] = out
     for attempt in range(4):
-        if not gen_corpus(seed, tier, out, dropped, release_like, specs_file):
+        if not gen_corpus(seed, tier, out, dropped, release_like, specs_file, only_forms):
             return False, dropped, failures
         t = time.time()
         code, outp = run(["cargo", "build", "-p", "runner"], cwd=out, capture=True, env=env, timeout=3 * 3600)
@@ -113,11 +115,44 @@ def run_property(prop, tier):
     limit = 1500 if tier == "quick" else 6 * 3600
     env = dict(ENV)
     env["VERIF_WORK"] = out
-    code, _ = run([runner_exe(out), prop, "--tier", tier, "--seed", str(seed)], timeout=limit, env=env)
+    cmd = [runner_exe(out), prop, "--tier", tier, "--seed", str(seed)]
+    if prop == "C09":
+        cmd += ["--dump", os.path.join(out, "c09_debug.tsv")]
+    code, _ = run(cmd, timeout=limit, env=env)
     if code is None:
         log("watchdog: %s did not finish within %ds: inconclusive" % (prop, limit))
         return 2
+    if prop == "C09" and code == 0:
+        return c09_release_like(seed, tier, out, limit)
     return code if code in (0, 1) else 2
+
+
+def c09_release_like(seed, tier, out, limit):
+    """Second half of C09: the same cases on a release-like build (opt-level 3, debug assertions
+    off: unchecked slicing is live) of the grammars compiled with all input forms; the two
+    observation logs must be identical and the release-like process must not die."""
+    rel = work_dir("rel")
+    os.makedirs(rel, exist_ok=True)
+    ok, _, _ = build_corpus(seed, tier, rel, release_like=True, only_forms=True)
+    if not ok:
+        return 2
+    try:
+        n = json.load(open(os.path.join(ROOT, "evidence", "C09.json")))["coverage"]["cases_per_pair"]
+    except Exception:  # noqa: BLE001
+        return 2
+    env = dict(ENV)
+    env["VERIF_WORK"] = rel
+    env["VERIF_C09_PER_PAIR"] = str(n)
+    dump = os.path.join(rel, "c09_release.tsv")
+    code, _ = run([runner_exe(rel), "C09", "--tier", tier, "--seed", str(seed), "--dump", dump, "--no-evidence"], timeout=limit, env=env)
+    if code is None:
+        log("watchdog: release-like C09 run did not finish: inconclusive")
+        return 2
+    if code == 1:
+        return 1  # the release-like build itself found an out-of-range offset or a panic
+    status = "0" if code == 0 else str(code)
+    code2, _ = run([runner_exe(out), "c09cmp", "--debug", os.path.join(out, "c09_debug.tsv"), "--release", dump, "--status", status], env=env, timeout=600)
+    return code2 if code2 in (0, 1) else 2
 
 
 def replay(doc, path):
